@@ -4,7 +4,6 @@ use serde::de::{self, DeserializeSeed, SeqAccess, Visitor};
 use serde::ser::{self, Impossible};
 use serde::{Deserialize, Serialize};
 use std::fmt::Write as _;
-use std::io::Write as _;
 
 #[derive(Debug)]
 pub struct Err(String);
